@@ -1001,7 +1001,8 @@ func (s *v4Server) handleRequest(req, resp *dhcpv4.DHCPv4) (lease *dhcpsvc.Lease
 
 // handleDecline is the handler for the DHCP Decline request.
 func (s *v4Server) handleDecline(req, resp *dhcpv4.DHCPv4) (err error) {
-	s.conf.notify(LeaseChangedDBStore)
+	// Store the leases once they have been changed.
+	defer s.conf.notify(LeaseChangedDBStore)
 
 	s.leasesLock.Lock()
 	defer s.leasesLock.Unlock()
@@ -1039,9 +1040,10 @@ func (s *v4Server) handleDecline(req, resp *dhcpv4.DHCPv4) (err error) {
 	newLease.Hostname = oldLease.Hostname
 	newLease.Expiry = time.Now().Add(s.conf.leaseTime)
 
-	err = s.addLease(newLease)
-	if err != nil {
-		return fmt.Errorf("adding new lease for %s: %w", mac, err)
+	// The new lease has already been added by allocateLease, so don't add it
+	// for the second time, just index it by its hostname.
+	if newLease.Hostname != "" {
+		s.hostsIndex[newLease.Hostname] = newLease
 	}
 
 	log.Info("dhcpv4: changed IP from %s to %s for %s", reqIP, newLease.IP, mac)
